@@ -9,7 +9,7 @@ from ..common import Result
 ID = "C20"
 LEVEL = "exploration"
 WORLDS = [(1, "plain"), (8, "plain")]
-BUDGET = {"quick": dict(cases=500), "thorough": dict(cases=10000)}
+BUDGET = {"quick": dict(cases=1000), "thorough": dict(cases=30000)}
 MIN_NONTRIVIAL = {"quick": 1500, "thorough": 20000}
 BLOB = (300, 1500)
 RULE = ("Hypothesis byte-backed generator: tables of 1-8 commands from shared stems (all handler subsets, variables of all types, multi-step scripts incl. HOLD released on stall, command "
